@@ -236,7 +236,23 @@ class ObjectiveMonitor(ModelMonitor):
     prop = "C08"
 
     def on_episode_end(self, trace: List[Event]) -> None:
-        if not trace or not trace[-1].last or not all(e.legal_only for e in trace):
+        if not trace or not all(e.legal_only for e in trace):
+            return
+        if not trace[-1].last:
+            # an episode cut by the step cap: where the documented objective is a running quantity (score so far, fruits so
+            # far, tiles cleaned so far) the rewards collected so far must already add up to it
+            if len(trace) < 2 or not getattr(self.P.model, "OBJECTIVE_HOLDS_ON_PREFIX", False):
+                return
+            obj = self.P.call("objective", trace)
+            if obj is None:
+                return
+            ret = float(sum(np.sum(e.reward.astype(np.float64)) for e in trace[1:]))
+            n = len(trace) - 1
+            self.rep.evaluated(1, trace[-1].digest)
+            self.rep.count("prefix_returns_compared")
+            self.ev_count(trace[-1], "prefix_returns_compared")
+            if not (abs(ret - obj) <= 1e-4 * max(1.0, abs(obj)) + 1e-5 * n):
+                self.report(trace[-1], [f"return_equals_objective: after {n} steps of an unfinished episode the rewards add up to {ret!r} but the objective so far is {obj!r}"], qualifier="prefix")
             return
         obj = self.P.call("objective", trace)
         if obj is None:
@@ -352,7 +368,20 @@ def make_probe_fn(prop: str, runner: Runner, P: ModelCtx, rng: np.random.Generat
     mode = PROBES.get(prop)
     if mode is None:
         return None
-    per_episode = (6 if prop == "C05" else 3) if tier == "quick" else 10
+    # the per-episode probe budget is counted in *branch steps*: small action spaces are probed at (nearly) every state of
+    # an episode, large ones at a handful of states
+    per_state = 512 if mode == "all" else 8
+    n_act = A.num_actions(runner.spec) if tuple(runner.spec.shape) == () else None
+    if A.MASK_KIND[runner.env_name] == "per_agent":
+        lo_, hi_ = A.spec_bounds(runner.spec)
+        n_act = int(np.sum(hi_ - lo_ + 1))
+    elif n_act is None:
+        n_act = A.num_actions(runner.spec)
+    n_act = min(n_act, per_state) if n_act <= per_state else (2 * max(4, per_state // 8) if mode == "all" else 8)
+    branch_budget = {"all": {"quick": 1500, "thorough": 5000}, "some": {"quick": 400, "thorough": 1200}}[mode][tier]
+    floor_states = ((6 if prop == "C05" else 3) if tier == "quick" else 10)
+    per_episode = int(min(250, max(floor_states, branch_budget // max(1, n_act))))
+    base_rate = max(0.6 if prop == "C05" else 0.35, min(1.0, per_episode / 25.0))
     state = {"episode": -1, "n": 0}
     tune = {"rate": None, "per_episode": None}  # set by the shard runner for deep episodes: probes spread over the whole run
     kind = A.MASK_KIND[runner.env_name]
@@ -369,7 +398,7 @@ def make_probe_fn(prop: str, runner: Runner, P: ModelCtx, rng: np.random.Generat
         if tune["rate"] is not None:
             if rng.random() > tune["rate"]:
                 return []
-        elif ev.t > 1 and rng.random() > (0.6 if prop == "C05" else 0.35):
+        elif ev.t > 1 and rng.random() > base_rate:
             return []
         state["n"] += 1
         budget = 512 if mode == "all" else 8
@@ -439,7 +468,7 @@ def run_model_shard(prop: str, shard: Dict[str, Any], rep: Report) -> None:
     probe_fn = make_probe_fn(prop, runner, P, rng, tier)
 
     if prop == "C10":
-        n_keys = int(os.environ.get("JMON_C10_KEYS", 16 if tier == "quick" else 120))
+        n_keys = int(os.environ.get("JMON_C10_KEYS", 48 if tier == "quick" else 300))
         digs = set()
         for ep in range(n_keys):
             key, kint = key_for(seed, sid, ep)
